@@ -464,6 +464,61 @@ impl BoardMonitor for C11Direct {
                 cx.distinct(mix(b.hash(), qb.hash()));
             }
         }
+        // systematic single-feature additions on the board as it stands (played boards included):
+        // every castling right that could validly be added, an EP file where one is backed, the
+        // other side to move -- each must change the hash
+        {
+            let mut variants: Vec<(RPos, &'static str)> = Vec::new();
+            for (c, col) in [(0usize, Color::White), (1usize, Color::Black)] {
+                let br = rel_rank(col, 1);
+                if let Some(k) = m.king_sq(col) {
+                    if (k / 8) as i32 != br {
+                        continue;
+                    }
+                    let kf = (k % 8) as i32;
+                    for w in 0..2 {
+                        if m.rights[c][w].is_some() {
+                            continue;
+                        }
+                        let files: Vec<i32> = if w == 0 { (kf + 1..8).collect() } else { (0..kf).collect() };
+                        for f in files {
+                            if m.sq[idx(f, br)] == Some((col, Piece::Rook)) {
+                                let mut q = m.clone();
+                                q.rights[c][w] = Some(f as u8);
+                                variants.push((q, "right-added"));
+                            }
+                        }
+                    }
+                }
+            }
+            if m.ep.is_none() {
+                let them = other(m.stm);
+                for f in 0..8i32 {
+                    if m.sq[idx(f, rel_rank(them, 4))] == Some((them, Piece::Pawn)) && m.sq[idx(f, rel_rank(them, 3))].is_none() && m.sq[idx(f, rel_rank(them, 2))].is_none() {
+                        let mut q = m.clone();
+                        q.ep = Some(f as u8);
+                        variants.push((q, "ep-added"));
+                    }
+                }
+            }
+            for (q, what) in variants {
+                if let Ok(Ok(qb)) = build(&q) {
+                    cx.eval();
+                    cx.count_dyn(format!("systematic-pairs:{}", what));
+                    if qb.hash() == b.hash() {
+                        board_violation(
+                            cx,
+                            "C11",
+                            format!("systematic-pair-collides|{}", what),
+                            format!("'{}' and '{}' differ in one feature ({}) but have the same hash {:#x}", write_fen(m, true), write_fen(&q, true), what, b.hash()),
+                            b,
+                            m,
+                            ev,
+                        );
+                    }
+                }
+            }
+        }
         // castling-right variants: same placement, right moved to another colour / wing / file
         if cx.rng.chance(1, 8) {
             let p = gen::castle_case(&mut cx.rng);
